@@ -180,6 +180,48 @@ func runR2e(c *Ctx, s *r2State) {
 		c.MissingAnchor("R2e", "the broadcast/getWaitCh method values handed to the callback in HoldLock")
 		return
 	}
+	// the wait channel is shared by every waiter that sampled since the last broadcast: anywhere in the
+	// package it is forgotten (set to nil) only after it was closed on the same path, and replaced by a
+	// new one only when there is none — otherwise waiters are left on a channel nobody will close
+	const chField = "broadcast.Broadcast.ch"
+	for _, d := range pkgDecls(c, "broadcast") {
+		d := d
+		writes := false
+		ast.Inspect(d.Decl.Body, func(n ast.Node) bool {
+			if _, ok := assignsFieldNode(d, n, chField); ok {
+				writes = true
+			}
+			return true
+		})
+		if !writes {
+			continue
+		}
+		c.Walk("R2e", &core.Config{}, core.Entry{Decl: d}, func(p *core.Path) {
+			g := prepare(c, p)
+			closed := false
+			for i, ev := range p.Events {
+				if ev.Kind == core.KClose {
+					if fv := fieldVar(ev.Chan, ev.Frame); fv != nil && core.FieldName(fv) == chField {
+						closed = true
+					}
+				}
+				if !assignsField(ev, chField, "") {
+					continue
+				}
+				if ev.Rhs != nil && isNilExpr(ev.Rhs, ev.Frame) {
+					s.note("R2e", enclosingName(c, ev)+"/forget-only-after-close", ev.Pos, !closed,
+						"the wait channel is set to nil only after it was closed on the same path",
+						"the shared wait channel is forgotten without having been closed: the waiters that hold it are never woken by a later broadcast", p)
+				} else {
+					okNil, _ := implies(g.litsBefore(i, false), eq("nil", chField))
+					s.note("R2e", enclosingName(c, ev)+"/replace-only-when-none", ev.Pos, !(okNil || closed),
+						"a new wait channel is installed only when there is none (or the old one was just closed)",
+						"a new wait channel is installed over one that may exist and was not closed: the waiters that hold the old one are never woken", p)
+					closed = false
+				}
+			}
+		})
+	}
 	// every wrapper calls the callback with the mutex held
 	for _, name := range []string{"HoldLock", "TryHoldLock", "HoldLockMaybeAsync"} {
 		f := c.Prog.LookupFunc("broadcast", "Broadcast", name)
@@ -587,6 +629,26 @@ func (s *r2State) interruptPath(d *core.FuncDecl, ctxP *types.Var, chans []*type
 					s.note("R17", name+"/ctx-arm-returns-error", ev.Pos, isNilExpr(last, ev.Frame),
 						"a return from the ctx.Done() arm carries an error",
 						"the function returns a nil error from its ctx.Done() arm: a cancelled wait is reported as success", p)
+					// … and it is the sentinel the package's waiters are documented to return: the literal
+					// context.Canceled, or <ctx>.Err() of a context (both forms occur in the library;
+					// anything else — context.Cause(ctx), a wrapped error — breaks callers that compare)
+					lastS := core.ExprString(unparen(last))
+					okSentinel := lastS == "context.Canceled"
+					if call, isCall := unparen(last).(*ast.CallExpr); isCall && len(call.Args) == 0 {
+						if sel, isSel := unparen(call.Fun).(*ast.SelectorExpr); isSel && sel.Sel.Name == "Err" {
+							if t := ev.Frame.Info().TypeOf(sel.X); t != nil && isContextType(t) {
+								okSentinel = true
+							}
+						}
+					}
+					if v := identVar(last, ev.Frame); v != nil && !isNilExpr(last, ev.Frame) {
+						okSentinel = true // a variable: its provenance is judged by the sentinel-provenance rule
+					}
+					if !isNilExpr(last, ev.Frame) {
+						s.note("R17", name+"/ctx-arm-returns-sentinel", ev.Pos, !okSentinel,
+							"the ctx.Done() arm returns context.Canceled (or the context's Err())",
+							"the ctx.Done() arm returns "+lastS+" instead of context.Canceled / ctx.Err(): callers that compare the error with context.Canceled no longer recognise a cancelled wait", p)
+					}
 				}
 			}
 			for _, r := range ev.Results {
